@@ -51,6 +51,7 @@ KIND_IO = {
     "lt": (["obj", "other"], ["lt"]),
     "if": (["condition"], ["truth"]),
     "loc": (["a"], ["o"]),
+    "forsnap": (["a", "b"], ["o", "a"]),
 }
 MACRO_ARGS = {"M1": ["x"], "M2": ["x", "y"], "M3": ["x", "y", "z"]}
 
@@ -61,6 +62,15 @@ def Snap(a="d"):
     if ROOT and SNAP_HOOK:
         SNAPS.append(SNAP_HOOK[0](ROOT[0]))
     o = ("snap", a)
+    return o
+
+
+@as_function_node("o", validate_output_labels=False)
+def Snap2(a="d", b="d"):
+    """the same as a loop body: `a` is looped on, `b` is broadcast (= value-linked from the for-node's input)"""
+    if ROOT and SNAP_HOOK:
+        SNAPS.append(SNAP_HOOK[0](ROOT[0]))
+    o = ("snap2", a, b)
     return o
 
 
@@ -79,6 +89,7 @@ def _make_local():
 Loc = _make_local()
 
 ForF1 = for_node_factory(nodes.F1, ("a",), (), False, None, True)
+ForSnap = for_node_factory(Snap2, ("a",), (), False, None, True)
 I2L = inputs_to_list_factory(2, True)
 L2O = list_to_outputs_factory(2, True)
 
@@ -106,6 +117,8 @@ def make_child(spec):
         n = Snap(label=label)
     elif kind == "loc":
         n = Loc(label=label)
+    elif kind == "forsnap":
+        n = ForSnap(label=label)
     elif kind == "ui":
         n = standard.UserInput(label=label)
     elif kind == "add":
